@@ -1759,6 +1759,18 @@ class Interp:
             # (a callable held in a local or parameter is resolved through
             # inferred types, which the two sides need not share)
             args, kws = self._with_defaults(callees, args, kws)
+        if ft[0] == "global" and ft[1] in self.m.classes and len(args) == 1 \
+                and not kws and self.m.lookup_method(ft[1], "__init__") \
+                is None and "builtins.dict" in self.m.full_mro(ft[1]) \
+                and not (args[0][0] == "unop"):
+            # D(x) for a dict subclass without a constructor of its own is
+            # d = D(); d.update(x)
+            t0 = ("call", ft, (), ())
+            if not self.is_pure(ft):
+                self.path.effects.append(("call", t0, node))
+            self.path.effects.append(
+                ("call", ("call", ("attr", t0, "update"), args, ()), node))
+            return t0
         t = ("call", ft, args, kws)
         if not self.is_pure(ft):
             # the n-th identical effectful call is a different event with a
